@@ -1118,7 +1118,7 @@ pub enum AnyImage {
     Double(f64),
     Bytes(Vec<u8>),
     Array(Vec<AnyImage>),
-    KvList(Vec<(String, AnyImage)>),
+    KvList(Vec<(KeyImage, AnyImage)>),
 }
 
 impl ModelValue {
@@ -1131,7 +1131,7 @@ impl ModelValue {
         use AnyImage as A;
         let seq = |v: &Vec<ModelValue>| v.iter().map(|e| e.any_image()).collect::<Result<Vec<_>, _>>().map(A::Array);
         let rec = |v: &Vec<(&'static str, ModelValue)>| {
-            v.iter().map(|(k, e)| e.any_image().map(|e| (k.to_string(), e))).collect::<Result<Vec<_>, _>>().map(A::KvList)
+            v.iter().map(|(k, e)| e.any_image().map(|e| (KeyImage::Text(k.to_string()), e))).collect::<Result<Vec<_>, _>>().map(A::KvList)
         };
         Ok(match self {
             M::Unit | M::None => A::Empty,
@@ -1164,15 +1164,13 @@ impl ModelValue {
         })
     }
 
-    /// Text of a kvlist key; `Err("map-key:<shape>")` for keys OTLP cannot carry as text.
-    pub fn any_key(&self) -> Result<String, String> {
+    /// Text of a kvlist key: strings as they are, scalars (bool, integers, floats) as their
+    /// text; `Err("map-key:<shape>")` for compound keys, which OTLP cannot carry.
+    pub fn any_key(&self) -> Result<KeyImage, String> {
         match self {
-            M::Str(v) => Ok(v.clone()),
-            M::Char(v) => Ok(v.to_string()),
-            M::UnitVariant(_, _, vn) => Ok(vn.to_string()),
-            M::NewtypeStruct(_, v) => v.any_key(),
-            other if other.key_shape() == "bigint" => Ok(other.int_text().unwrap()),
-            other => Err(format!("map-key:{}", other.key_shape())),
+            M::F32(v) if !v.is_finite() => Ok(KeyImage::Text(v.to_string())),
+            M::F64(v) if !v.is_finite() => Ok(KeyImage::Text(v.to_string())),
+            other => other.key_image(),
         }
     }
 }
